@@ -191,3 +191,29 @@ def preset_ill_typed(p) -> list:
             if type(v.r) is not int or not 1 <= v.r <= 3:
                 bad.append(f"{path}.r: {v.r!r} is not an int in 1..3")
     return bad
+
+
+# ---------------------------------------------------------------------------------------
+# VarRange with options that are not strings on a field declared str (class labels, as geml's rule sets pass them)
+# ---------------------------------------------------------------------------------------
+
+LABELS = [0, 1, 20]
+
+
+class K(ABC):
+    pass
+
+
+@dataclass
+class Klass(K):
+    value: Annotated[str, VarRange(LABELS)]
+
+
+@dataclass
+class Both(K):
+    l: K
+    r: K
+
+
+def labels_grammar():
+    return extract_grammar([Klass, Both], K)
